@@ -14,7 +14,7 @@ def build(ctx, v=None):
 def mcgen(ctx, binary, replay=True):
     """exhaustive (A)+(B) exploration with every priority assignment; returns replay verdicts"""
     configs = ctx.q([("{1, 2}", "{1, 2, 3}", "5", "4"), ("{1, 2, 3}", "{1, 2}", "5", "4")][:2 if replay else 1],
-                    [("{1, 2}", "{1, 2, 3}", "7", "4"), ("{1, 2, 3}", "{1, 2, 3}", "6", "4"), ("{1, 2}", "{1, 2}", "8", "5")])
+                    [("{1, 2}", "{1, 2, 3}", "6", "4"), ("{1, 2, 3}", "{1, 2, 3}", "5", "4"), ("{1, 2}", "{1, 2}", "6", "5")])
     for i, (slots, prios, depth, maxel) in enumerate(configs):
         g = ctx.cfg("treap", "TreapGen.cfg", {"Slots": slots, "Prios": prios, "Depth": depth, "MaxElems": maxel}, name="TreapGen_%d.cfg" % i)
         cases, n = ctx.gen("treap", "TreapGen", g, "cases-%d.ndjson" % i, stage="mcgen-%d" % i, workers=8, timeout=ctx.q(900, 5000),
@@ -95,7 +95,7 @@ def run_c17(ctx):
                 "treap; per-thread priority streams and treap observables recorded; the reference stream comes from the same code on one "
                 "thread in a fresh process. TreapRaceTrace accepts iff results equal the solo results and the streams are explained by "
                 "PerThread (prefix of one of the reference streams: stream i is what the (i+1)-th thread to create a node observes alone) or SharedAtomic (partition of a reference prefix, walked value by value). "
-                "Plus 200 (thorough 1500) rounds of 16 fresh threads released together with 4 draws each (the moment the per-thread generators come into being), "
+                "Plus 200 (thorough 500) rounds of 16 fresh threads released together with 4 draws each (the moment the per-thread generators come into being), "
                 "where additionally no two threads may be explainable only by the very same reference stream. Non-trivial = a thread stream of >= 1000 draws. Schedules are sampled by stress, not enumerated: the check can miss a "
                 "race, it cannot invent one.")
     dev = ctx.build()
@@ -153,11 +153,13 @@ def run_c17(ctx):
         nontrivial += threads if draws >= 1000 else 0
         os.remove(trace)
     # the moment per-thread generators come into being: many rounds of fresh threads released together, a few draws each
-    rounds_n, thr, per = ctx.q((200, 16, 4), (1500, 16, 4))
+    rounds_n, thr, per = ctx.q((200, 16, 4), (500, 16, 4))
+    # (plus rounds // 4 groups of three threads with staggered lifetimes, recorded by the same command)
+    n_streams = rounds_n * thr + 3 * max(rounds_n // 4, 8)
     for j, binary in enumerate((rel, dev)):
         solo = ctx.path("starts-solo-%d.ndjson" % j)
         race = ctx.path("starts-race-%d.ndjson" % j)
-        ctx.drv(binary, ["treap", "record-solo-streams", "--streams", str(rounds_n * thr), "--per", str(per), "--out", solo])
+        ctx.drv(binary, ["treap", "record-solo-streams", "--streams", str(n_streams), "--per", str(per), "--out", solo])
         ctx.drv(binary, ["treap", "record-starts", "--rounds", str(rounds_n), "--threads", str(thr), "--per", str(per), "--out", race])
         trace = ctx.path("trace-starts-%d.ndjson" % j)
         with open(trace, "w") as out:
@@ -166,7 +168,7 @@ def run_c17(ctx):
                     shutil.copyfileobj(f, out)
         os.remove(solo)
         os.remove(race)
-        bad = ctx.validate("treap", "TreapStartsTrace", ctx.cfg("treap", "TreapStartsTrace.cfg"), trace, stage="starts-%d" % j, runs=rounds_n * thr,
+        bad = ctx.validate("treap", "TreapStartsTrace", ctx.cfg("treap", "TreapStartsTrace.cfg"), trace, stage="starts-%d" % j, runs=n_streams,
                            keyfn=race_key, record_violations=False, need_note="streams judged", timeout=ctx.q(900, 3600))
         for v in bad:
             v["detail"]["replay_note"] = "schedule-dependent: re-run the check; %d rounds of %d fresh threads x %d draws, build=%s" % (rounds_n, thr, per, "release" if binary == rel else "debug")
